@@ -58,6 +58,18 @@ def gen_case(rng, idx, tier):
                     dims.append(Dim(n, -4.0, 4.0, w, periodic, glo, ghi, gw))
                 else:
                     dims.append(Dim(n, -4.0, 4.0, w, periodic))
+        # a custom block may give only some of the grid's parameters: the others stay those of the variables
+        r = rng.random()
+        case["grid_keys"] = ("lowerBoundary", "upperBoundary", "width")
+        if r < 0.2:
+            dims = [Dim(d.name, d.vlo, d.vhi, d.w, d.periodic, None, None, rng.choice([x for x in (0.5, 1.0, 2.0) if x != d.w])) for d in dims]
+            case["grid_keys"] = ("width",)
+        elif r < 0.3 and not any(d.periodic for d in dims):
+            dims = [Dim(d.name, d.vlo, d.vhi, d.w, d.periodic, d.vlo - d.w * rng.randint(1, 3), None, None) for d in dims]
+            case["grid_keys"] = ("lowerBoundary",)
+        elif r < 0.4 and not any(d.periodic for d in dims):
+            dims = [Dim(d.name, d.vlo, d.vhi, d.w, d.periodic, None, d.vhi + d.w * rng.randint(1, 3), None) for d in dims]
+            case["grid_keys"] = ("upperBoundary",)
         case["dims"] = dims
         case["hist"] = []
         for d in dims:
@@ -97,8 +109,9 @@ def config(case):
     if case["step0"]:
         cfg += "  stepZeroData on\n"
     if case["kind"] == "vector" or any(d.glo != d.vlo or d.ghi != d.vhi or d.gw != d.w for d in dims):
-        cfg += "  histogramGrid {\n    lowerBoundary %s\n    upperBoundary %s\n    width %s\n  }\n" % (
-            " ".join(fnum(d.glo) for d in dims), " ".join(fnum(d.ghi) for d in dims), " ".join(fnum(d.gw) for d in dims))
+        vals = {"lowerBoundary": " ".join(fnum(d.glo) for d in dims), "upperBoundary": " ".join(fnum(d.ghi) for d in dims),
+                "width": " ".join(fnum(d.gw) for d in dims)}
+        cfg += "  histogramGrid {\n" + "".join("    %s %s\n" % (k, vals[k]) for k in case.get("grid_keys", ("lowerBoundary", "upperBoundary", "width"))) + "  }\n"
     cfg += "}\n"
     return cfg
 
@@ -187,6 +200,11 @@ def check_case(c, case, r, ev, sp, prefix):
         # the data follow the grid_parameters block
         body = body.split("}")[-1] if "}" in body else body
         nums = [float(x) for x in body.split()]
+    if m and nums and len(nums) != ncell:
+        # the block holds nothing but numbers, one per cell: a well-formed grid of another size than the configuration asks for
+        c.violation("grid_cells:" + key, "the histogram's grid holds %d cells; boundaries and widths of the configuration give %s = %d cells" % (
+            len(nums), " x ".join(str(n) for n in shape), ncell), [sp], payload={"config": config(case)})
+        return False
     if len(nums) != ncell:
         c.inconc("cannot parse histogram state (%d numbers for %d cells) %s" % (len(nums), ncell, key))
         return False
